@@ -44,7 +44,7 @@ class Session:
             self.p.stdin.write(line + '\n'); self.p.stdin.flush()
             if settle:
                 time.sleep(settle)
-            if sync and line.strip() != 'isready':
+            if sync and line.split()[:1] != ['isready']:      # `isready ...` is its own synchronisation point
                 self.p.stdin.write('isready\n'); self.p.stdin.flush()
         except (BrokenPipeError, OSError):
             step['synced'] = False
